@@ -565,13 +565,20 @@ func main() {
 	r.Transitions += st.Points
 	r.Traces += st.Execs
 	// map-order schedules: the encoder ranges over the property map; every order must give the same bytes
-	st = r.ExploreSharded("property-order", "property maps of 2..4 keys over typed values: every iteration order of the encoder's range over the map yields byte-identical tiles", mc.Opts{MaxDev: -1}, 16, func(c *mc.Ctx) {
+	st = r.ExploreSharded("property-order", "property maps of 2..4 keys (5 key families: plain, case variants, blank-padded, differently composed accents, common prefixes) over typed values: every iteration order of the encoder's range over the map yields byte-identical tiles", mc.Opts{MaxDev: -1}, 16, func(c *mc.Ctx) {
 		n := 2 + c.Choose(3)
 		if !r.Owned(c, n) {
 			return
 		}
 		f := geojson.NewFeature(orb.Point{1, 1})
 		vals := []interface{}{"x", 1, 1.5, true, nil, int64(1), []int{1}}
+		// key families: plain ones, and keys that an order which folds case, trims blanks, normalises or looks at a
+		// prefix only would consider the same (any such order is not total, and the key table then follows the map order)
+		fam := c.Choose(5)
+		keys := [][]string{keys, {"name", "Name", "NAME", "nAmE"}, {"a", "a ", " a", "a\t"}, {"\u00e9", "e\u0301", "\u00c9", "E\u0301"}, {"key", "key1", "key10", "ke"}}[fam]
+		if fam > 0 {
+			vals = vals[:3]
+		}
 		for i := 0; i < n; i++ {
 			f.Properties[keys[i]] = vals[c.Choose(len(vals))]
 		}
